@@ -200,5 +200,6 @@ def run(ctx):
     rule_sort_helpers(ctx)
     rule_sort_matches(ctx)
     rule_sealing(ctx)
+    c01.rule_judgments(ctx)
     ctx.assume("completeness, the exact diagnostic kind, inference and expected-type preparation are NOT decided")
     return {}
